@@ -33,7 +33,7 @@ def scale(profiles, k):
     return [(n, c * k) for n, c in profiles]
 
 
-Q01 = [("mailbox", 30000), ("backpressure", 8000), ("lifecycle", 8000), ("owning", 4000), ("burst", 3000), ("mix", 10000)]
+Q01 = [("mailbox", 30000), ("backpressure", 8000), ("lifecycle", 8000), ("owning", 4000), ("burst", 3000), ("mix", 10000), ("timeout", 8000), ("restart", 4000), ("stream", 4000)]
 Q02 = [("mailbox", 16000), ("lifecycle", 16000), ("owning", 10000), ("backpressure", 4000), ("timeout", 6000), ("restart", 6000), ("faults+faults", 250), ("lifecycle+faults", 250), ("mix", 10000), ("mix+faults", 150)]
 Q03 = [("lifecycle", 24000), ("owning", 8000), ("handles", 6000), ("mailbox", 4000), ("stream", 8000), ("restart", 6000), ("timeout", 6000), ("mix", 10000)]
 Q04 = [("lifecycle", 30000), ("owning", 12000), ("mailbox", 6000), ("backpressure", 4000), ("timeout", 8000), ("restart", 4000), ("faults+faults", 250), ("lifecycle+faults", 250), ("mix", 10000), ("mix+faults", 150)]
